@@ -204,8 +204,8 @@ def run(ck):
             pat = ", ".join("%s = p%d" % (fs[i], i) for i in order2)
             upd = "%s = %d.0" % (fs[order2[0]], vals[0] + 10)
             weights = " + ".join("p%d * %d.0" % (i, 10 ** i) for i in range(k))
-            return ("fn mk(s){\n  {%s}\n}\nfn use_%s(r){\n  r.%s * 2.0\n}\nfn dsp(){\n  let r = mk(1.0)\n  let {%s} = r\n  let r2 = { r <- %s }\n  (%s) + r2.%s * 100000.0 + use_%s(r)\n}\n"
-                    % (lit, "f", fs[k - 1], pat, upd, weights, fs[order2[0]], "f"))
+            return ("fn mk(s){\n  {%s}\n}\nfn dsp(){\n  let r = mk(1.0)\n  let {%s} = r\n  let r2 = { r <- %s }\n  (%s) + r2.%s * 100000.0 + r.%s * 1000.0\n}\n"
+                    % (lit, pat, upd, weights, fs[order2[0]], fs[k - 1]))
         f1, f2 = names(k), names(k)
         reqs.append({"src": render(f1), "n": 3, "state": False}); meta.append((rbase + ri, "orig"))
         reqs.append({"src": render(f2), "n": 3, "state": False}); meta.append((rbase + ri, "field-rename"))
@@ -231,6 +231,8 @@ def run(ck):
                 bump("known_F43_name_collision"); ck.known(findings["F43"], rq["src"].replace("\n", " ")[:120]); continue
             viol.append(("process died on the %s-transformed program but not on the original" % kind, ci, kind, rq, {})); continue
         a, b = summary(o), summary(r)
+        if not any(v and v[0] == 'ok' for v in a.values()):
+            bump("original_not_accepted_" + kind); continue
         if a == b:
             bump("same_" + kind)
             if any(v and v[0] == 'ok' for v in a.values()):
